@@ -46,6 +46,8 @@ func (p *printer) write(v interface{}) {
 	case float64:
 		s := strconv.FormatFloat(v, 'g', -1, 64)
 		io.WriteString(p.p, s)
+	case json.Number:
+		io.WriteString(p.p, v.String())
 	case string:
 		p.writeString(v)
 	case []interface{}:
@@ -149,8 +151,12 @@ func Fprint(w io.Writer, v interface{}) error {
 		return err
 	}
 
+	// Keep numbers as the literals json.Marshal wrote: going through
+	// float64 loses integers above 2^53.
 	var g interface{}
-	if err := json.Unmarshal(bs, &g); err != nil {
+	dec := json.NewDecoder(bytes.NewReader(bs))
+	dec.UseNumber()
+	if err := dec.Decode(&g); err != nil {
 		return err
 	}
 
